@@ -136,8 +136,8 @@ type read struct {
 	TxID    int64
 }
 
-func toTime(sec int64) ledger.Time {
-	return ledger.Time{Time: time.Unix(baseEpoch+sec, 0).UTC()}
+func toTime(us int64) ledger.Time {
+	return ledger.Time{Time: time.Unix(baseEpoch, 0).Add(time.Duration(us) * time.Microsecond).UTC()}
 }
 
 func txToCore(t *Tx) *ledger.Transaction {
@@ -146,9 +146,9 @@ func txToCore(t *Tx) *ledger.Transaction {
 		ps = append(ps, ledger.NewPosting(p.Src, p.Dst, p.Asset, big.NewInt(p.Amount)))
 	}
 	// the timestamp text carries the zone offset: wall-clock fields TS, offset Off
-	ts := ledger.Time{Time: time.Unix(baseEpoch+t.TS-t.Off, 0).In(time.FixedZone("", int(t.Off)))}
+	ts := ledger.Time{Time: toTime(t.TS - t.Off*sec).In(time.FixedZone("", int(t.Off)))}
 	if t.Off == 0 {
-		ts = ledger.Time{Time: time.Unix(baseEpoch+t.TS, 0).UTC()}
+		ts = toTime(t.TS)
 	}
 	md := metadata.Metadata{}
 	for k, v := range t.Meta {
@@ -225,7 +225,7 @@ func secOf(v minipg.Value) (int64, bool) {
 		return 0, false
 	}
 	us := int64(t)
-	return us/1000000 - baseEpoch, true
+	return us - baseEpoch*sec, true
 }
 
 func (x *runner) ctime(v minipg.Value) string {
@@ -286,7 +286,7 @@ func pitSQL(p *int64) string {
 	if p == nil {
 		return "NULL"
 	}
-	return "'" + time.Unix(baseEpoch+*p, 0).UTC().Format("2006-01-02 15:04:05") + "'::timestamp"
+	return "'" + toTime(*p).Format("2006-01-02 15:04:05.000000") + "'::timestamp"
 }
 
 func pitCoq(p *int64) string {
@@ -601,7 +601,7 @@ func (x *runner) txCell(tx *ledger.Transaction, err error, what string) string {
 	if tx.Metadata != nil {
 		md = nm.cmeta(tx.Metadata)
 	}
-	return cl(czBig(tx.ID), cz(tx.Timestamp.Unix()-baseEpoch), ref, cls(ps), md, cb(tx.Reverted))
+	return cl(czBig(tx.ID), cz(tx.Timestamp.UnixMicro()-baseEpoch*sec), ref, cls(ps), md, cb(tx.Reverted))
 }
 
 func isUniqueViolation(err error) bool {
